@@ -12,9 +12,9 @@
        skip_name / consume_name; only element and attribute names are qualified names).
 
    Still excluded, each for a stated reason: ':' in the names of ENTITIES (the crate accepts it, declaration and
-   reference alike; (F): the character-data machinery of stage S3 is stated for colon-free names); '>' inside a
-   quoted literal of a skipped declaration ((R): the crate stops at the first '>', see Proofs/CstFullS7Sanity.v);
-   '%' in an entity literal ((F): not XML either way; the crate keeps it verbatim).  Independent of the model. *)
+   reference alike; (F): the character-data machinery of stage S3 is stated for colon-free names);
+   '%' in an entity literal ((F): not XML either way; the crate keeps it verbatim).  The body of a skipped declaration (ELEMENT / ATTLIST / NOTATION) is
+   that of Spec/CstFullS5.v as it is ([decl_body_ok]: '>' may occur inside a quoted literal).  Independent of the model. *)
 From Coq Require Import List NArith Bool.
 From RX.Spec Require Import Scope.
 From RX.Spec Require Cst CstNs CstU CstText CstEnt Chars Detector.
